@@ -558,6 +558,28 @@ func (st *c12Stream) apply(c c12Case, scratch *[]byte) (d c12Damage, err error) 
 		*scratch = out
 		d.data, d.first, d.where = out, c.A, st.label(c.A)
 		d.desc = fmt.Sprintf("byte %d deleted (%s: 0x%02x)", c.A, d.where, b[c.A])
+	case "hpinc", "hp00":
+		o2 := c.B / 8
+		if err = chk(c.A); err != nil {
+			return
+		}
+		if err = chk(o2); err != nil {
+			return
+		}
+		out := inplace()
+		if c.Fam == "hpinc" {
+			out[c.A]++
+		} else {
+			out[c.A] = 0
+		}
+		out[o2] ^= 1 << uint(c.B%8)
+		d.noop = out[c.A] == b[c.A]
+		d.data, d.first = out, c.A
+		if o2 < c.A {
+			d.first = o2
+		}
+		d.where = st.label(c.A) + "+" + st.label(o2)
+		d.desc = fmt.Sprintf("byte %d (%s: 0x%02x -> 0x%02x) changed and bit %d of payload byte %d (%s) flipped", c.A, st.label(c.A), b[c.A], out[c.A], c.B%8, o2, st.label(o2))
 	case "flip2":
 		o1, o2 := c.A/8, c.B/8
 		if err = chk(o1); err != nil {
@@ -640,7 +662,36 @@ func (st *c12Stream) apply(c c12Case, scratch *[]byte) (d c12Damage, err error) 
 }
 
 // enumerate calls f for every case of the tier, in a fixed order.
-func (st *c12Stream) enumerate(mode string, thorough bool, pairs string, blockPermsOnly bool, f func(c c12Case) bool) {
+func (st *c12Stream) enumerate(mode string, thorough bool, pairs string, blockPermsOnly bool, hp string, f func(c c12Case) bool) {
+	if hp != "" {
+		// two-site damage only: one byte outside the payloads (block header fields, type descriptors: the
+		// places that decide whether / how a payload is verified) incremented or zeroed, combined with a
+		// bit flip inside a block payload. hp=bit0: one bit per payload byte, hp=all: every bit.
+		isHdr := map[int]bool{}
+		for _, o := range st.Header {
+			isHdr[o] = true
+		}
+		bits := 1
+		if hp == "all" {
+			bits = 8
+		}
+		for _, h := range st.Header {
+			for _, fam := range []string{"hpinc", "hp00"} {
+				for _, o := range st.Positions {
+					if isHdr[o] {
+						continue
+					}
+					for b := 0; b < bits; b++ {
+						c := c12Case{Stream: st.Name, Mode: mode, Fam: fam, A: h, B: o*8 + b, Sum: st.Sum}
+						if !f(c) {
+							return
+						}
+					}
+				}
+			}
+		}
+		return
+	}
 	mk := func(fam string, a, b int) c12Case {
 		return c12Case{Stream: st.Name, Mode: mode, Fam: fam, A: a, B: b, Sum: st.Sum}
 	}
@@ -1123,7 +1174,7 @@ func TestVerif_C12(t *testing.T) {
 
 	idx, mine := 0, 0
 	capped := false
-	st.enumerate(mode, env.Thorough() && env.Params["extra"] != "0", env.Params["pairs"], env.Params["perms"] == "blocks", func(c c12Case) bool {
+	st.enumerate(mode, env.Thorough() && env.Params["extra"] != "0", env.Params["pairs"], env.Params["perms"] == "blocks", env.Params["hp"], func(c c12Case) bool {
 		i := idx
 		idx++
 		if i%env.NShards != env.Shard {
